@@ -357,3 +357,193 @@ theorem bury_claimed_iff (best h net : Nat) (e : Entry) (hs : e.stage = .claimed
       rw [if_pos (by omega)]
 
 end Ldk.Onchain
+
+/-! ### a preimage learned after the closing commitment confirmed (C07): `HLedger` -/
+namespace Ldk.Onchain
+open Ldk Ldk.PreimageClaims
+
+theorem mem_matchingIdx {α : Type} (p : α → Bool) (xs : List α) :
+    ∀ k j, j ∈ matchingIdx p xs k ↔ k ≤ j ∧ ∃ x, xs[j - k]? = some x ∧ p x = true := by
+  induction xs with
+  | nil => intro k j; simp [matchingIdx]
+  | cons y ys ih =>
+    intro k j
+    unfold matchingIdx
+    by_cases hp : p y = true
+    · rw [if_pos hp, List.mem_cons, ih]
+      constructor
+      · rintro (rfl | ⟨hk, x, hx, hpx⟩)
+        · exact ⟨Nat.le_refl _, y, by simp, hp⟩
+        · refine ⟨by omega, x, ?_, hpx⟩
+          have : j - k = (j - (k + 1)) + 1 := by omega
+          rw [this, List.getElem?_cons_succ]; exact hx
+      · rintro ⟨hk, x, hx, hpx⟩
+        by_cases hjk : j = k
+        · exact Or.inl hjk
+        · right
+          refine ⟨by omega, x, ?_, hpx⟩
+          have : j - k = (j - (k + 1)) + 1 := by omega
+          rw [this, List.getElem?_cons_succ] at hx; exact hx
+    · rw [if_neg hp, ih]
+      constructor
+      · rintro ⟨hk, x, hx, hpx⟩
+        refine ⟨by omega, x, ?_, hpx⟩
+        have : j - k = (j - (k + 1)) + 1 := by omega
+        rw [this, List.getElem?_cons_succ]; exact hx
+      · rintro ⟨hk, x, hx, hpx⟩
+        have hjk : j ≠ k := by
+          intro h; subst h
+          simp at hx; subst hx; exact hp hpx
+        refine ⟨by omega, x, ?_, hpx⟩
+        have : j - k = (j - (k + 1)) + 1 := by omega
+        rw [this, List.getElem?_cons_succ] at hx; exact hx
+
+theorem provide_getElem? (hl : HLedger) (m i : Nat) :
+    (hl.provide m).ledger.entries[i]? =
+      (hl.ledger.entries[i]?).map fun e =>
+        if (selectIdx (if hl.cfg.holderClose then holderPreimageIter else counterpartyPreimageIter)
+              (preimageScanAccepts hl.cfg m) (hl.ledger.entries.zip hl.hashes)).contains i then e.learn hl.cfg else e := by
+  simp only [HLedger.provide, List.getElem?_mapIdx]
+
+
+theorem learn_item_sat (c : CloseCfg) (e : Entry) : (e.learn c).item.sat = e.item.sat ∧ (e.learn c).stage = e.stage := by
+  unfold Entry.learn
+  split
+  · split <;> exact ⟨rfl, rfl⟩
+  · exact ⟨rfl, rfl⟩
+
+theorem learn_ok (c : CloseCfg) (e : Entry) (h : e.ok) : (e.learn c).ok := by
+  unfold Entry.learn
+  split
+  · rename_i hs
+    split
+    · simp only [Entry.ok, hs]
+    · exact h
+  · exact h
+
+/-- an unspent inbound HTLC that learns its preimage can be claimed -/
+theorem learn_kind (c : CloseCfg) (e : Entry) (hs : e.stage = .pending) (hi : e.item.inbound = true) :
+    (e.learn c).item.kind = .inboundHtlcPreimage := by
+  unfold Entry.learn
+  rw [hs]
+  simp only
+  split
+  · rfl
+  · rename_i hk
+    unfold Item.inbound at hi
+    simp only [Bool.or_eq_true, decide_eq_true_eq] at hi
+    rcases hi with h | h
+    · exact h
+    · exact absurd h hk
+
+theorem provide_ok (hl : HLedger) (m : Nat) (h : ∀ e ∈ hl.ledger.entries, e.ok) :
+    ∀ e ∈ (hl.provide m).ledger.entries, e.ok := by
+  intro e he
+  obtain ⟨i, hi⟩ := List.getElem?_of_mem he
+  rw [provide_getElem?] at hi
+  cases hg : hl.ledger.entries[i]? with
+  | none => rw [hg] at hi; cases hi
+  | some e0 =>
+    rw [hg] at hi
+    simp only [Option.map_some, Option.some.injEq] at hi
+    have h0 := h e0 (List.mem_of_getElem? hg)
+    generalize selectIdx _ _ _ = S at hi
+    rw [← hi]
+    by_cases hc : S.contains i = true
+    · rw [if_pos hc]; exact learn_ok hl.cfg e0 h0
+    · rw [if_neg hc]; exact h0
+
+theorem hstep_ok (hl : HLedger) (o : HOp) (h : ∀ e ∈ hl.ledger.entries, e.ok) :
+    ∀ e ∈ (hl.step o).ledger.entries, e.ok := by
+  cases o with
+  | op o => exact step_ok hl.ledger o h
+  | provide m => exact provide_ok hl m h
+
+theorem hrun_ok (ops : List HOp) : ∀ (hl : HLedger), (∀ e ∈ hl.ledger.entries, e.ok) →
+    ∀ e ∈ (hl.run ops).ledger.entries, e.ok := by
+  induction ops with
+  | nil => intro hl h; exact h
+  | cons o rest ih =>
+    intro hl h
+    exact ih (hl.step o) (hstep_ok hl o h)
+
+theorem hclose_ok (c : CloseCfg) (height : Nat) (items : List (Item × Nat)) :
+    ∀ e ∈ (hclose c height items).ledger.entries, e.ok := by
+  unfold hclose closeWith
+  exact close_ok _ _
+
+/-- the invariant "every entry carries the configuration's csv for its kind" -/
+def HLedger.csvOk (hl : HLedger) : Prop := ∀ e ∈ hl.ledger.entries, e.item.csv = itemCsv hl.cfg e.item.kind
+
+theorem learn_csv (c : CloseCfg) (e : Entry) (h : e.item.csv = itemCsv c e.item.kind) :
+    (e.learn c).item.csv = itemCsv c (e.learn c).item.kind := by
+  unfold Entry.learn
+  split
+  · split
+    · rfl
+    · exact h
+  · exact h
+
+theorem provide_cfg (hl : HLedger) (m : Nat) : (hl.provide m).cfg = hl.cfg := rfl
+
+theorem provide_csvOk (hl : HLedger) (m : Nat) (h : hl.csvOk) : (hl.provide m).csvOk := by
+  intro e he
+  obtain ⟨i, hi⟩ := List.getElem?_of_mem he
+  rw [provide_getElem?] at hi
+  cases hg : hl.ledger.entries[i]? with
+  | none => rw [hg] at hi; cases hi
+  | some e0 =>
+    rw [hg] at hi
+    simp only [Option.map_some, Option.some.injEq] at hi
+    have h0 := h e0 (List.mem_of_getElem? hg)
+    generalize selectIdx _ _ _ = S at hi
+    rw [provide_cfg, ← hi]
+    by_cases hc : S.contains i = true
+    · rw [if_pos hc]; exact learn_csv hl.cfg e0 h0
+    · rw [if_neg hc]; exact h0
+
+theorem step_csvOk (hl : HLedger) (o : Op) (h : hl.csvOk) : (hl.step (.op o)).csvOk := by
+  intro e he
+  have h1 : e.item ∈ (Onchain.step hl.ledger o).entries.map (·.item) := List.mem_map.2 ⟨e, he, rfl⟩
+  rw [step_items] at h1
+  obtain ⟨e0, he0, hi⟩ := List.mem_map.1 h1
+  have := h e0 he0
+  show e.item.csv = itemCsv hl.cfg e.item.kind
+  rw [← hi]; exact this
+
+theorem hrun_csvOk (ops : List HOp) : ∀ (hl : HLedger), hl.csvOk → (hl.run ops).csvOk := by
+  induction ops with
+  | nil => intro hl h; exact h
+  | cons o rest ih =>
+    intro hl h
+    apply ih
+    cases o with
+    | op o => exact step_csvOk hl o h
+    | provide m => exact provide_csvOk hl m h
+
+theorem hrun_cfg (ops : List HOp) : ∀ (hl : HLedger), (hl.run ops).cfg = hl.cfg := by
+  induction ops with
+  | nil => intro hl; rfl
+  | cons o rest ih =>
+    intro hl
+    show ((hl.step o).run rest).cfg = hl.cfg
+    rw [ih]
+    cases o <;> rfl
+
+theorem hclose_csvOk (c : CloseCfg) (height : Nat) (items : List (Item × Nat)) : (hclose c height items).csvOk := by
+  intro e he
+  have h1 : e.item ∈ (hclose c height items).ledger.entries.map (·.item) := List.mem_map.2 ⟨e, he, rfl⟩
+  have : (hclose c height items).ledger = closeWith c height (items.map (·.1)) := rfl
+  rw [this, closeWith_items] at h1
+  obtain ⟨i, _, hi⟩ := List.mem_map.1 h1
+  show e.item.csv = itemCsv c e.item.kind
+  rw [← hi]
+
+/-- with the scan shape `all`, every position whose element passes the test is selected -/
+theorem selectIdx_all {α : Type} (p : α → Bool) (xs : List α) (i : Nat) (x : α) (hx : xs[i]? = some x) (hp : p x = true) :
+    (selectIdx .all p xs).contains i = true := by
+  simp only [selectIdx, List.contains_iff_mem]
+  rw [mem_matchingIdx]
+  exact ⟨Nat.zero_le _, x, by simpa using hx, hp⟩
+
+end Ldk.Onchain
